@@ -335,6 +335,165 @@ pub fn gen_gadget_rich(r: &mut Rng, max_core: usize, pool: PhasePool, var_prob: 
     DDesc { verts, edges: es, inputs, outputs, scalar: gen_scalar(r) }
 }
 
+/// Replace the variable parities of a description by parities over `nvars` variables:
+/// a mix of short ones (1-2 variables, skewed towards the low indices so that equal parities
+/// on different spiders are common) and long ones (each variable with probability 0.6).
+pub fn rewire_vars(d: &mut DDesc, r: &mut Rng, nvars: u32, p: f64) {
+    for v in d.verts.iter_mut() {
+        if v.kind == VK::B {
+            continue;
+        }
+        v.vars.clear();
+        if !r.chance(p) {
+            continue;
+        }
+        if r.chance(0.55) {
+            let k = 1 + r.below(2);
+            for _ in 0..k {
+                let x = (r.below(nvars as usize).min(r.below(nvars as usize))) as u32;
+                if !v.vars.contains(&x) {
+                    v.vars.push(x);
+                }
+            }
+        } else {
+            v.vars = (0..nvars).filter(|_| r.chance(0.6)).collect();
+        }
+        v.vars.sort();
+    }
+}
+
+/// Scalar forests: many tiny closed components (isolated spiders, same- and mixed-colour
+/// pairs on either edge type, short chains) whose spiders carry parities over `nvars`
+/// variables; the two spiders of a pair often carry the same parity. Simplifying them produces
+/// one conditional scalar factor per component, i.e. large factor tables.
+pub fn gen_scalar_forest(r: &mut Rng, min_comp: usize, max_comp: usize, pool: PhasePool, nvars: u32) -> DDesc {
+    let nc = min_comp + r.below(max_comp - min_comp + 1);
+    let mut verts: Vec<DV> = vec![];
+    let mut edges: Vec<(usize, usize, EK)> = vec![];
+    let parity = |r: &mut Rng| -> Vec<u32> {
+        match r.below(10) {
+            0 => vec![],
+            1..=4 => {
+                let mut v: Vec<u32> = (0..(1 + r.below(2))).map(|_| r.below(nvars as usize) as u32).collect();
+                v.sort();
+                v.dedup();
+                v
+            }
+            _ => (0..nvars).filter(|_| r.chance(0.5)).collect(),
+        }
+    };
+    // phases away from the values that make a component vanish, most of the time
+    let ph = |r: &mut Rng| if r.chance(0.8) { *r.pick(&[(1i64, 4i64), (1, 2), (3, 4), (-1, 4), (-1, 2), (0, 1)]) } else { gen_phase(r, pool) };
+    for _ in 0..nc {
+        let kind = |r: &mut Rng| if r.chance(0.7) { VK::Z } else { VK::X };
+        match r.below(10) {
+            0..=4 => verts.push(DV { kind: kind(r), ph: ph(r), vars: parity(r) }),
+            5..=8 => {
+                let a = verts.len();
+                let pa = parity(r);
+                let pb = if r.chance(0.35) { pa.clone() } else { parity(r) };
+                verts.push(DV { kind: kind(r), ph: ph(r), vars: pa });
+                verts.push(DV { kind: kind(r), ph: ph(r), vars: pb });
+                edges.push((a, a + 1, if r.chance(0.5) { EK::N } else { EK::H }));
+            }
+            _ => {
+                let a = verts.len();
+                let len = 3 + r.below(2);
+                for i in 0..len {
+                    verts.push(DV { kind: kind(r), ph: ph(r), vars: parity(r) });
+                    if i > 0 {
+                        edges.push((a + i - 1, a + i, if r.chance(0.5) { EK::N } else { EK::H }));
+                    }
+                }
+            }
+        }
+    }
+    DDesc { verts, edges, inputs: vec![], outputs: vec![], scalar: gen_scalar(r) }
+}
+
+/// Matcher-edge shapes around phase gadgets: 2-3 hubs over a small core, where a hub may have
+/// no leaf, one leaf or several leaves, a leaf may hang on a plain edge, hubs may carry a
+/// phase, be adjacent, be X spiders, or have neighbourhoods that differ in one vertex only.
+/// Most of these are *near* matches of gadget fusion / duplicate removal / pi-gadget removal.
+pub fn gen_gadget_pairs(r: &mut Rng, pool: PhasePool, var_prob: f64) -> DDesc {
+    let nc = 1 + r.below(4);
+    let mut verts = vec![];
+    let mut edges: Vec<(usize, usize, EK)> = vec![];
+    for _ in 0..nc {
+        verts.push(DV { kind: VK::Z, ph: gen_phase(r, pool), vars: gen_vars(r, var_prob) });
+    }
+    for a in 0..nc {
+        for b in (a + 1)..nc {
+            if r.chance(0.3) {
+                edges.push((a, b, EK::H));
+            }
+        }
+    }
+    let base: Vec<usize> = {
+        let mut v: Vec<usize> = (0..nc).filter(|_| r.chance(0.6)).collect();
+        if v.is_empty() {
+            v.push(r.below(nc));
+        }
+        v
+    };
+    let nh = 2 + r.below(2);
+    let mut hubs = vec![];
+    for _ in 0..nh {
+        let hub = verts.len();
+        let ph = match r.below(10) {
+            0..=5 => (0, 1),
+            6..=7 => (1, 1),
+            _ => gen_phase(r, pool),
+        };
+        let kind = if r.chance(0.05) { VK::X } else { VK::Z };
+        verts.push(DV { kind, ph, vars: gen_vars(r, var_prob * 0.5) });
+        // neighbourhood: the shared one, sometimes with one vertex dropped or added
+        let mut nhd = base.clone();
+        if r.chance(0.2) && nhd.len() > 1 {
+            let i = r.below(nhd.len());
+            nhd.remove(i);
+        }
+        if r.chance(0.15) {
+            let x = r.below(nc);
+            if !nhd.contains(&x) {
+                nhd.push(x);
+            }
+        }
+        for &c in &nhd {
+            let k = if r.chance(0.93) { EK::H } else { EK::N };
+            add_edge(&mut edges, c, hub, k);
+        }
+        let nl = *r.pick(&[0usize, 1, 1, 1, 1, 2, 2, 3]);
+        for _ in 0..nl {
+            let leaf = verts.len();
+            verts.push(DV { kind: VK::Z, ph: gen_phase(r, pool), vars: gen_vars(r, var_prob) });
+            edges.push((hub, leaf, if r.chance(0.9) { EK::H } else { EK::N }));
+        }
+        hubs.push(hub);
+    }
+    if r.chance(0.1) {
+        add_edge(&mut edges, hubs[0], hubs[1], EK::H);
+    }
+    let nb = r.below(4);
+    let mut bnds = vec![];
+    for _ in 0..nb {
+        let b = verts.len();
+        verts.push(DV { kind: VK::B, ph: (0, 1), vars: vec![] });
+        // mostly on the core; occasionally on a hub
+        let s = if r.chance(0.9) { r.below(nc) } else { *r.pick(&hubs) };
+        edges.push((s.min(b), s.max(b), if r.chance(0.5) { EK::H } else { EK::N }));
+        bnds.push(b);
+    }
+    let cut = if bnds.is_empty() { 0 } else { r.below(bnds.len() + 1) };
+    let inputs = bnds[..cut].to_vec();
+    let outputs = bnds[cut..].to_vec();
+    let mut es: Vec<(usize, usize, EK)> = vec![];
+    for (a, b, k) in edges {
+        add_edge(&mut es, a, b, k);
+    }
+    DDesc { verts, edges: es, inputs, outputs, scalar: gen_scalar(r) }
+}
+
 /// Family (e): the `index`-th tiny diagram of the exhaustive enumeration with exactly `ns`
 /// spiders: colours {Z,X}, phases from `phases`, pairwise edges {none,N,H}, and `nb` in
 /// 0..=2 boundaries each attached to a spider with N or H (or, if ns = 0, a bare wire).
